@@ -326,7 +326,7 @@ MAP_CTORS = {
 COMMON_MAPS = ["dict", "dict", "dict", "typing.Dict", "typing.Mapping", "collections.OrderedDict"]
 
 STRUCT_FLAVOURS = ["dataclass", "dataclass", "dc_slots", "dc_kwonly", "dc_frozen", "namedtuple", "typeddict",
-                   "typeddict_partial", "typeddict_notrequired", "typeddict_partial_required", "typeddict_inherit", "plain", "plain_initonly",
+                   "typeddict_partial", "typeddict_notrequired", "typeddict_partial_required", "typeddict_inherit", "typeddict_inherit_rev", "plain", "plain_initonly",
                    "slotsclass"]
 HASHABLE_STRUCT_FLAVOURS = ["dc_frozen", "namedtuple"]
 FIELD_NAMES = ["f0", "f1", "f2", "f3", "x", "y", "val", "id", "data", "name", "value", "kind", "items_", "key"]
@@ -590,6 +590,13 @@ class Gen:
             self.prog.emit(f"class {base_name}(typing.TypedDict):\n" + "".join(f"    {f[0]}: {q(f)}\n" for f in fields[:k]))
             self.prog.emit(f"class {name}({base_name}, total=False):\n" + ("".join(f"    {f[0]}: {q(f)}\n" for f in fields[k:]) or "    pass\n"))
             spec.info["required"] = [f[0] for f in fields[:k]]
+        elif fl == "typeddict_inherit_rev":
+            # a total TypedDict extending a total=False one: the base's keys stay optional
+            k = rng.randrange(1, len(fields) + 1)
+            base_name = name + "_tdbase"
+            self.prog.emit(f"class {base_name}(typing.TypedDict, total=False):\n" + "".join(f"    {f[0]}: {q(f)}\n" for f in fields[:k]))
+            self.prog.emit(f"class {name}({base_name}):\n" + ("".join(f"    {f[0]}: {q(f)}\n" for f in fields[k:]) or "    pass\n"))
+            spec.info["required"] = [f[0] for f in fields[k:]]
         elif fl == "typeddict_partial_required":
             # total=False with individual keys marked Required[...]
             lines, req = [], []
